@@ -276,6 +276,14 @@ def cases(tier):
         for i in range(1, na + 1):
             for j in js:
                 out.append(dict(kind='threads', a=ta, b=tb, i=i, j=j))
+    # the same with pre-emption at ANY line of the library (not only at function evaluations): thread A is pre-empted in front of its n-th traced
+    # line, thread B runs its whole tabulation, A resumes (one pre-emption; every n in the thorough tier, every 7th in the quick tier);
+    # 'same' = both threads write the SAME tabulation object to two sinks
+    for ta, tb in [(t, t) for t in REUSE_TARGETS] + [('LAMMPS', 'DLPOLY'), ('setfl', 'DL_POLY_EAM_fs')]:
+        for same in ((False, True) if ta == tb else (False,)):
+            nl = thread_lines(ta)
+            for n in range(1, nl + 1, 1 if tier != 'quick' else 7):
+                out.append(dict(kind='threads-fine', a=ta, b=tb, n=n, same=same))
     # the potable command line writing, one run after the other, into the SAME OUTPUT_FILE: every ordered sequence of (model, size)
     alpha = [[n, big] for n in NAMES for big in (0, 1)]
     for depth in ((2,) if tier == 'quick' else (2, 3)):
@@ -570,6 +578,113 @@ def run_threads(case):
                 states=['threads:%s|%s' % (case['a'], case['b'])], transitions=len(sched.trace), traces=1)
 
 
+def reuse_tab(objs, target, grid):
+    """the tabulation object of reuse_write (so that one object can be written from two threads)"""
+    from atsim.potentials import pair_tabulation as PT, eam_tabulation as ET
+    cutoff, nr, crho, nrho = REUSE_GRIDS[grid]
+    if target in ('LAMMPS', 'DLPOLY', 'GULP'):
+        cls = {'LAMMPS': PT.LAMMPS_PairTabulation, 'DLPOLY': PT.DLPoly_PairTabulation, 'GULP': PT.GULP_PairTabulation}[target]
+        return cls(objs['pots'], cutoff, nr)
+    if target == 'eam_adp':
+        return ET.ADP_EAMTabulation(objs['pots'], objs['eam'], objs['dip'], objs['quad'], cutoff, nr, crho, nrho)
+    cls = getattr(ET, {'setfl': 'SetFL_EAMTabulation', 'setfl_fs': 'SetFL_FS_EAMTabulation', 'DL_POLY_EAM': 'TABEAM_EAMTabulation', 'DL_POLY_EAM_fs': 'TABEAM_FinnisSinclair_EAMTabulation'}[target])
+    return cls(objs['pots'], objs['eamfs' if target.endswith('_fs') else 'eam'], cutoff, nr, crho, nrho)
+
+
+class _LineSched(object):
+    """pre-empts the traced thread in front of its n-th line event inside the library; the other thread then runs to completion"""
+    def __init__(self, n):
+        import threading
+        self.n, self.count = n, 0
+        self.a, self.b = threading.Semaphore(0), threading.Semaphore(0)
+        self.prefix = os.path.join(boot.REPO, 'atsim') + os.sep
+        self.switched = False
+
+    def tracer(self, frame, event, arg):
+        if event == 'call':
+            return self.local if frame.f_code.co_filename.startswith(self.prefix) else None
+        return None
+
+    def local(self, frame, event, arg):
+        if event == 'line':
+            self.count += 1
+            if self.count == self.n and not self.switched:
+                self.switched = True
+                self.b.release()
+                self.a.acquire()
+        return self.local
+
+
+_LINES = {}
+
+
+def thread_lines(target):
+    """number of traced line events of thread A's write()"""
+    if target not in _LINES:
+        sc = _LineSched(-1)
+        tab = reuse_tab(thread_objects(0), target, 0)
+        fp = io.StringIO()
+        sys.settrace(sc.tracer)
+        try:
+            tab.write(fp)
+        finally:
+            sys.settrace(None)
+        _LINES[target] = sc.count
+    return _LINES[target]
+
+
+def run_threads_fine(case):
+    import threading
+    sc = _LineSched(case['n'])
+    taba = reuse_tab(thread_objects(0), case['a'], 0)
+    tabb = taba if case['same'] else reuse_tab(thread_objects(1), case['b'], 0)
+    out, err = [None, None], [None, None]
+
+    def body_a():
+        fp = io.StringIO()
+        sys.settrace(sc.tracer)
+        try:
+            taba.write(fp)
+            out[0] = fp.getvalue()
+        except BaseException as e:  # noqa
+            err[0] = e
+        finally:
+            sys.settrace(None)
+            if not sc.switched:
+                sc.switched = True
+                sc.b.release()
+
+    def body_b():
+        sc.b.acquire()
+        fp = io.StringIO()
+        try:
+            tabb.write(fp)
+            out[1] = fp.getvalue()
+        except BaseException as e:  # noqa
+            err[1] = e
+        finally:
+            sc.a.release()
+    ths = [threading.Thread(target=body_a), threading.Thread(target=body_b)]
+    for t in ths:
+        t.daemon = True
+        t.start()
+    for t in ths:
+        t.join(60)
+    viol = []
+    if any(t.is_alive() for t in ths):
+        viol.append(dict(sig='threads-deadlock', msg='line schedule n=%d of %s | %s did not terminate' % (case['n'], case['a'], case['b']), detail={}))
+    refs_ = [thread_ref(case['a'], 0)[0], thread_ref(case['a'], 0)[0] if case['same'] else thread_ref(case['b'], 1)[0]]
+    for tid in (0, 1):
+        if err[tid] is not None:
+            viol.append(dict(sig='threads-exception:%s' % type(err[tid]).__name__, msg='thread %d, A pre-empted at library line event %d (%s | %s%s): %s: %s'
+                             % (tid, case['n'], case['a'], case['b'], ', same object' if case['same'] else '', type(err[tid]).__name__, err[tid]), detail={}))
+        elif out[tid] != refs_[tid] and not viol:
+            viol.append(dict(sig='output-depends-on-concurrent-tabulation', msg='thread A (%s) pre-empted at its library line event %d while thread B (%s%s) tabulates: the table of thread %d differs from its sequential output (first difference at %d)'
+                             % (case['a'], case['n'], case['b'], ', the same tabulation object' if case['same'] else '', tid, first_diff(out[tid] or '', refs_[tid])), detail={}))
+    return dict(outcome='ok:threads-fine' if not viol else 'violation', nontrivial=True, evals=sc.count, violations=viol,
+                states=['threads-fine:%s|%s|%s' % (case['a'], case['b'], case['same'])], transitions=2, traces=1)
+
+
 _REUSE_REF = {}
 
 
@@ -628,6 +743,8 @@ def run_case(case):
         return run_api_reuse(case)
     if case['kind'] == 'threads':
         return run_threads(case)
+    if case['kind'] == 'threads-fine':
+        return run_threads_fine(case)
     if case['kind'] == 'stdout-alias':
         return run_stdout_alias(case)
     if case['kind'] == 'api-share':
